@@ -8,15 +8,29 @@ from vt.props import c01 as C1
 
 META = dict(C1.META)
 META["outside"] = list(C1.META["outside"]) + [
-    "container-level lock-step (metadata objects, query results): the TOC stack cannot be driven soundly by CrossHair (C06)",
+    "container-level lock-step beyond sequences of 2 actions (3 in the thorough tier) of the C06 action alphabet; IH5MFRecord at container level",
     "IH5-specific API restrictions: dataset[...] = v on data of an older container is refused (copy_into_patch is the documented way); hard links are refused",
     "error messages and exception classes (only success/failure is compared)"]
 prechecks = C1.prechecks
-confirm = C1.confirm
+
+
+def confirm(part, kwargs, native):
+    if part.module.endswith("cont"):
+        from vt.props import c06
+        return c06.confirm(part, kwargs, native)
+    return C1.confirm(part, kwargs, native)
 
 
 def plan(tier, seed):
     parts = [p for p in C1.w_parts(tier) if p.sel.get("op") not in ("set_node", "copy_into_patch", "set_delvalue")]
+    # container level: the same action sequences through both drivers against one reference model
+    from vt.runner import Part
+    import vt.harness.cont as HK  # noqa
+    k = 2 if tier == "quick" else 3
+    for drv in ("h5", "ih5"):
+        for first in range(len(HK.ACTIONS)):
+            parts.append(Part("vt.harness.cont", "seq", {"drv": drv, "k": k, "first": first}, 900 if tier == "quick" else 8000, 300,
+                              "container level: same steps succeed/fail and leave the same data, metadata objects and query results on both drivers (common reference model), incl. patch boundaries and reopen points"))
     return parts + protocol_parts(tier)
 
 
